@@ -14,6 +14,9 @@ func init() { register("C11", runC11) }
 var c11Names = []string{"a", "b", "c", "d"}
 
 func runC11(e *Env) error {
+	if err := relNamesCorpus(e); err != nil {
+		return err
+	}
 	r := e.Rep
 	rg := e.Rng
 	r.Rule = "includer/included pairs over 4 variable names: each name independently unset / set in the context / set by the includer before the include; every combination of with / only / ignore missing (and sandboxed with an all-allowing policy), " +
